@@ -260,7 +260,7 @@ class C13(BaseCheck):
         for t in range(nthreads):
             ops = []
             for _ in range(k.choice([1, 1, 2, 3, 4, 6])):
-                kind = r.choice(['filter', 'filter', 'filter', 'filter', 'limit', 'hold', 'callheld', 'scan', 'bad', 'recheck'])
+                kind = r.choice(['filter', 'filter', 'filter', 'filter', 'limit', 'hold', 'callheld', 'scan', 'bad', 'recheck', 'spoil'])
                 if kind == 'filter':
                     ops.append({'op': 'filter', 'f': r.randrange(len(pool))})
                 elif kind == 'limit':
@@ -275,6 +275,8 @@ class C13(BaseCheck):
                     scan_id += m
                 elif kind == 'bad':
                     ops.append({'op': 'bad', 'b': r.randrange(len(BAD_FILTERS))})
+                elif kind == 'spoil':
+                    ops.append({'op': 'spoil'})
                 else:
                     ops.append({'op': 'recheck'})
             threads.append({'ops': ops})
@@ -501,18 +503,23 @@ class C13(BaseCheck):
                 def body():
                     used = []
                     held = []
+                    kept = []      # (filter, expected rows, result grid): previously obtained results
                     for oi, o in enumerate(prog['ops']):
                         op = o['op']
                         if op == 'filter':
                             f = pool[o['f'] % len(pool)]
                             lim = o.get('limit', 0)
                             want = f['rows'][:lim] if lim else f['rows']
+                            res_grid = None
                             try:
-                                got = self._ids(grid.filter(f['text'], lim))
+                                res_grid = grid.filter(f['text'], lim)
+                                got = self._ids(res_grid)
                             except Exception as e:
                                 got = ('exc', type(e).__name__, str(e)[:160])
                             results.append((tid, oi, 'filter', o['f'] % len(pool), want, got))
                             used.append(f)
+                            if not isinstance(got, tuple):
+                                kept.append((o['f'] % len(pool), list(want), res_grid))
                         elif op == 'hold':
                             f = pool[o['f'] % len(pool)]
                             try:
@@ -544,6 +551,18 @@ class C13(BaseCheck):
                                 results.append((tid, oi, 'bad', b, 'exception', got))
                             except Exception as e:
                                 results.append((tid, oi, 'bad', b, 'exception', ('exc', type(e).__name__, '')))
+                        elif op == 'spoil':
+                            # the caller edits a result it obtained earlier: later evaluations of the same
+                            # filter must not see the edit (results are not shared between calls)
+                            if kept:
+                                fi, want, rg = kept[-1]
+                                try:
+                                    if len(rg):
+                                        rg.pop()
+                                    rg.append({'id': 'r0', 'n': -1})
+                                    kept[-1] = (fi, self._ids(rg), rg)
+                                except Exception as e:
+                                    results.append((tid, oi, 'spoil', fi, 'ok', ('exc', type(e).__name__, str(e)[:160])))
                         elif op == 'recheck':
                             for f in list(used):
                                 try:
@@ -551,6 +570,13 @@ class C13(BaseCheck):
                                 except Exception as e:
                                     got = ('exc', type(e).__name__, str(e)[:160])
                                 results.append((tid, oi, 'recheck', pool.index(f), f['rows'], got))
+                    # previously obtained results still hold what they held
+                    for (fi, want, rg) in kept:
+                        try:
+                            got = self._ids(rg)
+                        except Exception as e:
+                            got = ('exc', type(e).__name__, str(e)[:160])
+                        results.append((tid, len(prog['ops']), 'kept', fi, want, got))
                 return body
 
             for tid, prog in enumerate(case['threads']):
@@ -612,6 +638,10 @@ class C13(BaseCheck):
                                                            'got': got, 'want': want,
                                                            'got_is_result_of': by_rows.get(tuple(got))},
                         'solo': {'text': text, 'want': want, 'limit': len(want) if kind == 'filter' and len(want) < len(pool[fi]['rows'] if isinstance(fi, int) and fi >= 0 else want) else 0}}
+                if kind == 'kept':
+                    # a result obtained earlier changed under the caller's feet: no solo evaluation can excuse that
+                    del viol['solo']
+                    viol['clause'] = 'kept-result-changed'
         for t in sim.threads:
             if t.exc is not None and not viol:
                 raise runner.HarnessError('workload body raised: %r' % (t.exc,))
